@@ -186,3 +186,81 @@ func UncheckedErrorsBefore(target ssa.Instruction) []ssa.CallInstruction {
 	}
 	return out
 }
+
+// IsParamValue reports whether value a is (a copy of) parameter p of an enclosing function: p itself, a load of the
+// cell p was spilled to, or a (load of a) free variable bound to either; the cell must have no other store.
+func IsParamValue(a ssa.Value, p *ssa.Parameter) bool {
+	a = Unwrap(a)
+	if a == p {
+		return true
+	}
+	cellHoldsParam := func(cell ssa.Value) bool {
+		al, ok := cell.(*ssa.Alloc)
+		if !ok {
+			return false
+		}
+		stores, okStore := 0, false
+		for _, c := range cellAliases(al) {
+			if refs := c.Referrers(); refs != nil {
+				for _, ref := range *refs {
+					if st, ok := ref.(*ssa.Store); ok && st.Addr == c {
+						stores++
+						if st.Val == p {
+							okStore = true
+						}
+					}
+				}
+			}
+		}
+		return okStore && stores == 1
+	}
+	resolveFV := func(fv *ssa.FreeVar) ssa.Value {
+		fn := fv.Parent()
+		for i, x := range fn.FreeVars {
+			if x != fv || fn.Parent() == nil {
+				continue
+			}
+			var b ssa.Value
+			Instrs(fn.Parent(), false, func(in ssa.Instruction) {
+				if mc, ok := in.(*ssa.MakeClosure); ok && mc.Fn == fn && i < len(mc.Bindings) {
+					b = mc.Bindings[i]
+				}
+			})
+			return b
+		}
+		return nil
+	}
+	for hops := 0; hops < 4; hops++ {
+		switch x := a.(type) {
+		case *ssa.FreeVar:
+			b := resolveFV(x)
+			if b == nil {
+				return false
+			}
+			if b == p {
+				return true
+			}
+			a = b
+		case *ssa.UnOp:
+			if x.Op != token.MUL {
+				return false
+			}
+			cell := x.X
+			if fv, ok := cell.(*ssa.FreeVar); ok {
+				cell = resolveFV(fv)
+				for h := 0; h < 3; h++ {
+					if fv2, ok := cell.(*ssa.FreeVar); ok {
+						cell = resolveFV(fv2)
+					}
+				}
+			}
+			if cell == nil {
+				return false
+			}
+			return cellHoldsParam(cell)
+		default:
+			return false
+		}
+	}
+	return false
+}
